@@ -428,3 +428,26 @@ def response_problem(resp):
         if not all(isinstance(t, Tok) and t.kind == 'a' for t in resp[2:]):
             return f'CAPABILITY lists something that is not an atom: {resp[2:]!r}'[:300]
     return None
+
+
+def shape(v):
+    """token stream of a parsed value for the Lean `Structure` recognisers: N NIL, S<k> string (k: 1 TEXT, 2 MESSAGE, 3 RFC822, 0 other),
+    D number, A other atom, ( )"""
+    out = []
+
+    def go(x):
+        if isinstance(x, list):
+            out.append('(')
+            for y in x:
+                go(y)
+            out.append(')')
+        elif _is_nil(x):
+            out.append('N')
+        elif _is_number(x):
+            out.append('D')
+        elif _is_string(x):
+            out.append('S' + str({b'TEXT': 1, b'MESSAGE': 2, b'RFC822': 3}.get(x.val.upper(), 0)))
+        else:
+            out.append('A')
+    go(v)
+    return ','.join(out)
